@@ -48,8 +48,9 @@ def ticks(t: float) -> int:
 VERBS = {"mixed": False}
 
 
-def port_run(arrivals, sequential):
-    """Drive the real PortTransport.write_frame chain; returns per request (arrival, size chars, admission, write) in ticks, semaphore events, frames."""
+def port_run(arrivals, sequential, stalls=()):
+    """Drive the real PortTransport.write_frame chain; returns per request (arrival, size chars, admission, write) in ticks, semaphore events, frames.
+    stalls = (at, duration) pairs: a callback that takes `duration` of wall time -- the clock moves on while nothing else runs."""
     import importlib  # noqa: PLC0415
 
     loop = VLoop(ceil=True)
@@ -133,6 +134,8 @@ def port_run(arrivals, sequential):
         t0[0] = loop.time()
         t = T()
         tasks = []
+        for at, d in stalls:
+            loop.call_at(t0[0] + at, lambda d=d: setattr(loop, "_vtime", loop._vtime + d))
         for k, (gap, n) in enumerate(arrivals):
             if gap:
                 await asyncio.sleep(gap)
@@ -431,6 +434,25 @@ def run(ctx: Ctx) -> None:
         elif floor < -(K - 1) * MAX_FRAME_BITS - 1e-6:
             ctx.violation("bucket-overdrawn-beyond-pending-frames", f"the bucket level (as the next top-up would compute it) fell to {floor:.1f} bits with at most {K} calls pending at once (floor: -{K - 1} frames)",
                           {"pattern": pat, "arrivals": arr, "max_pending": K}, "schedule")
+    # a loop that is held up (a blocking callback of the host, a GC pause, a suspended process) while writers are queued: once it runs again the
+    # queued frames still leave one gap apart -- time "owed" is not paid back in a burst
+    for stalls in ([(0.075, 0.6)], [(0.02, 0.3), (0.5, 0.25)], [(0.001, 2.0)], [(0.26, 0.11)]):
+        arr = [(0.0, rng.choice([1, 8, 24])) for _ in range(rng.randint(6, 10))]
+        rows, events, out = port_run(arr, False, stalls)
+        ctx.case(("concurrent-stalled", tuple(arr), tuple(stalls)), True, "concurrent:loop-stalled")
+        case = {"pattern": "burst with the loop stalled", "arrivals": arr, "stalls": stalls}
+        wt = sorted(t for k, t in events if k == "W")
+        for i in range(len(wt)):
+            for j in range(i + 2, len(wt)):
+                if (j - i - 1) * GAP_S - (wt[j] - wt[i]) > 1e-9:
+                    ctx.violation("write-gap-window-exceeded:after-a-stalled-loop", f"{j - i + 1} writes within {wt[j] - wt[i]:.4f} s (from {wt[i]:.4f}) once the loop ran again: "
+                                  f"more than one extra write for the gap of {GAP_S} s", {**case, "writes": [round(x, 4) for x in wt]}, "schedule")
+                    break
+            else:
+                continue
+            break
+        if sorted(o.decode().rstrip("\r\n") for o in out) != sorted(r["frame"] for r in rows) or len(rows) != len(arr):
+            ctx.violation("frame-lost-duplicated-or-altered", "with the loop stalled, the frames written are not the frames accepted", case, "schedule")
     # sync-cycle avoidance: a write offered just before a controller's announced sync is held back until the cycle is over -- and only then;
     # "regulation only delays writes": every frame offered is written, soon after the announced time at the latest, whatever became of the
     # controller that announced it (its next announcement may never be heard)
